@@ -171,16 +171,16 @@ theorem cTemplates_ok (h : cTemplates subdirs fs reg = .ok (ws, reg')) :
   cases h; exact ⟨_, by assumption, by assumption, rfl, rfl⟩
 
 theorem cPcInd_ok (h : cPcInd subdirs fs reg = .ok (ws, reg')) :
-    ∃ tables, loadEach (readTable fs "pc_feature_ind.npy") subdirs = .ok tables ∧
+    ∃ tables, loadEach (readTable fs "pc_feature_ind.npy") subdirs = .ok tables ∧ sameWidth tables = true ∧
       ws = [("pc_feature_ind.npy", .table (C12.shiftTables tables reg.chanIndexOffsets))] ∧ reg' = reg := by
   inv_ok cPcInd h
-  cases h; exact ⟨_, by assumption, rfl, rfl⟩
+  cases h; exact ⟨_, by assumption, by assumption, rfl, rfl⟩
 
 theorem cTfInd_ok (h : cTfInd subdirs fs reg = .ok (ws, reg')) :
-    ∃ tables, loadEach (readTable fs "template_feature_ind.npy") subdirs = .ok tables ∧
+    ∃ tables, loadEach (readTable fs "template_feature_ind.npy") subdirs = .ok tables ∧ sameWidth tables = true ∧
       ws = [("template_feature_ind.npy", .table (C12.shiftTables tables reg.templateOffsets))] ∧ reg' = reg := by
   inv_ok cTfInd h
-  cases h; exact ⟨_, by assumption, rfl, rfl⟩
+  cases h; exact ⟨_, by assumption, by assumption, rfl, rfl⟩
 
 theorem cMisc_ok (fn : String) (h : cMisc subdirs fn fs reg = .ok (ws, reg')) :
     ∃ ms, loadEach (readMatOpt fs fn) subdirs = .ok ms ∧
